@@ -6,18 +6,37 @@ only); after every catalog call the same call is also made by hand on a stand-al
 index (as the specification prescribes: valid docid, stop at the first index that raises) and `obs`
 reports a mismatch between an index inside the catalog and its twin.
 
-Mutation sanity check (scratch copies, each run with VERIF_REPO=/var/tmp/mut_cat_N): see the end of
-this docstring (filled in after the runs).
+Mutation sanity check (scratch copies of /repo/hypatia, each run with VERIF_REPO=/var/tmp/mut_cat_N, all
+deleted afterwards); every one gave VIOLATION with a shrunk replay within the first ~800-2700 cases:
+ 1 Catalog.reindex_doc without assertint            -> `reindex sx l=w` answers ok (str docid, empty list)
+ 2 unordered search intersects `results[1:]` only   -> needs a first answer that is not the smallest
+ 3 ordered search without the empty-result bail-out -> later sort_index/unknown-name errors surface
+ 4 sort(): `numdocs = min(numdocs, limit)` dropped  -> num 5 instead of 3 under limit=3
+ 5 FieldIndex.apply dict default operator 'and'     -> dict without 'operator' over two values
+ 6 FieldIndex.apply: 2-tuple inside a dict = range  -> `{'query': (0, 8), 'operator': 'and'}`
+ 7 KeywordIndex.apply default operator 'or'
+ 8 discriminate skips the Persistent check for callable discriminators
+ 9 Catalog.index_doc keeps going after a ValueError and re-raises at the end (later indexes updated)
+10 FieldIndex.apply: a 2-element *list* treated as a range
+11 assertint rejects bool (`type(docid) is not int`)
+12 unordered search starts from results[0] and drops the last of >3 answers (needs a 4-index query)
 """
 from lib.core import exc_name, idset
 
 ID = "C12"
 AUDIT_IMPORTS = ["HypatiaProofs.Properties.C12"]
-THEOREMS = []          # filled below
-CASES = {"quick": 1600, "thorough": 100000}
-BUDGET_S = {"quick": 40, "thorough": 700}
+THEOREMS = ["Hyp.Catalog." + t for t in (
+    "c12_fanout_call", "c12_call_exception", "c12_index_all", "c12_reindex_all", "c12_unindex_all", "c12_reset_all",
+    "c12_persistent_rejected", "c12_nonint_docid_rejected", "c12_bool_docid", "c12_fanout_history",
+    "c12_fanout_entry", "c12_field_history", "c12_keyword_history", "c12_facet_history", "c12_names_stable",
+    "c12_setitem_name", "c12_setitem_get", "c12_search_unordered", "c12_search_ordered", "c12_interAll",
+    "c12_sort_without_index", "c12_sort_num", "c12_num_eq_min", "c12_call_eq_query", "c12_field_legacy",
+    "c12_keyword_legacy", "c12_facet_legacy", "c12_search_meaning_unordered", "c12_search_meaning_ordered")]
+CASES = {"quick": 8000, "thorough": 300000}
+BUDGET_S = {"quick": 45, "thorough": 800}
 RULE = ("catalogs of 1-5 indexes (field, keyword, facet; attribute-name and callable discriminators, several "
-        "indexes may read the same attribute), histories of 5-45 (thorough: up to 150) catalog calls "
+        "indexes may read the same attribute; 3% of the steps store a new index or replace one under an existing "
+        "name via __setitem__ and read its __name__), histories of 5-45 (thorough: up to 150) catalog calls "
         "index/reindex/unindex/reset over docids 0..9 with documents whose attributes are present, missing, "
         "Persistent, Broken or a str under a keyword index, 8% non-int docids (bool, str, float, None), "
         "interleaved and final observations of every index (enumeration, counts, every posting) compared with "
@@ -369,6 +388,22 @@ def gen(rng, tier, idx_no):
     for _ in range(rng.randrange(5, maxlen)):
         r = rng.random()
         d = rng.choice(ids) if rng.random() < 0.92 else rng.choice(BAD_IDS)
+        if rng.random() < 0.03 and len(idx) < 6:
+            # Catalog.__setitem__ in the middle of a history: a new index, or a fresh one under an old name
+            name = rng.choice(NAMES)
+            kind = rng.choice(["field", "keyword", "facet"])
+            attr = rng.choice({"field": FIELD_ATTRS, "keyword": KW_ATTRS, "facet": FACET_ATTRS}[kind])
+            extra = [enc(f) for f in rng.sample(FACETS, rng.randrange(1, 6))] if kind == "facet" else []
+            cmds.append(["add", name, kind, attr] + extra)
+            cmds.append(["name", name])
+            pos = [i for i, t in enumerate(idx) if t[0] == name]
+            if pos:
+                idx[pos[0]] = (name, kind, attr)
+            else:
+                idx.append((name, kind, attr))
+            facets_of.pop(name, None)
+            if kind == "facet":
+                facets_of[name] = [dec(t) for t in extra]
         if r < 0.02:
             cmds.append(["reset"])
             cur.clear()
@@ -739,6 +774,8 @@ def features(case, outs):
                     f.append("docval:" + v)
         elif op == "reset":
             f.append("reset")
+        elif op == "add":
+            f.append("setitem-midway")
         elif op == "obs":
             f.append("obs:" + ("empty" if "docids={}" in o else "nonempty"))
         elif op in ("search", "query", "call", "sort"):
